@@ -295,6 +295,18 @@ def _flatten_agreement(ctx: Ctx):
                           f"{got.get(k)!r}; the nearest declaration is {exp.get(k)!r} (own > extends/mixins depth first)",
                           rel, None, sample={"plugin": plugin, "struct": sname, "prop": k, "owner": got.get(k)})
     ctx.floor("flattening folds", n, 12)
+    names = flatten.fold_rust_inherited_literal(idx)
+    ok = len(set(names)) == 1 and isinstance(names[0], str) and names[0] and not names[0].startswith("<")
+    ctx.check(ok, "literal-types-named", "rust:inherited-literal",
+              f"an anonymous literal on a base-structure property gets the struct names {names} when reached through two "
+              "inheriting structures and the base itself; they must be one non-empty name (else the field is emitted as "
+              "`Option<None>`)", flatten.P_RC, None, sample={"names": names})
+    # a plugin must be a function of the model it is given: no container or memo that survives a run
+    from ..genlint import cross_run_state
+    nstate, hits = cross_run_state(idx, "generator/plugins/")
+    for rel, construct, msg, ln in hits:
+        ctx.fail("no-cross-run-state", construct, msg, rel, ln)
+    ctx.ok("no-cross-run-state", {"containers_examined": nstate})
     # anonymous literal types at every position of the discipline get a name and a class (python plugin)
     res = flatten.fold_python_literals(idx)
     ctx.floor("literal shapes folded", len(res), 6)
